@@ -259,7 +259,7 @@ def run(chk: Check):
                         'cell; a point on the lowest line of an axis belongs to the first cell',
                         'real-vs-binary64 gap of the model is not proved (bounded by the correspondence)']
     chk.coq_props('props/C05_Props.v')
-    cases = c04.load_corpus('C05') + [c04.gen_case(chk.rng) for _ in range(chk.n(300, 4000))]
+    cases = c04.load_corpus('C05') + [c04.gen_case(chk.rng) for _ in range(chk.n(1000, 12000))]
     check_cases(chk, cases)
 
 
